@@ -1090,6 +1090,12 @@ def rule_signspan(ctx, rep, rid="R-C05-signspan"):
                     for d in (b.defs.get(b.root(p)[0], []) if p is not None else []):
                         if d[0] == "call" and (d[2].callee or "").split("::")[-1] in ("join", "join2", "range"):
                             joined = True
+                        elif d[0] == "call" and (d[2].callee or "").startswith("ironplc_parser::") and "::__parse_" not in (d[2].callee or ""):
+                            # a helper of the parser that computes the span from the sign and the digits it is handed
+                            for hb in ctx.prog.get(d[2].callee):
+                                sign_arg = any("Option" in (hb.local_ty(k_) or "") or "Token" in (hb.local_ty(k_) or "") for k_ in range(1, hb.f["argc"] + 1))
+                                if sign_arg and len(d[2].args) >= 2 and any((c2.callee or "").split("::")[-1] in ("join", "join2", "range") for c2 in hb.calls()):
+                                    joined = True
                 if joined:
                     r.ok(inst, where, "joined from the sign and the digits")
                 else:
